@@ -2555,6 +2555,11 @@ impl Block {
                 {
                     tx.clone()
                 } else {
+                    // a placeholder is decoded on the other side of the wire, where its hash
+                    // is read back from the first half of the signature field
+                    let mut placeholder_signature: SaitoSignature = [0; 64];
+                    placeholder_signature[0..32]
+                        .copy_from_slice(&tx.hash_for_signature.unwrap_or([0; 32]));
                     Transaction {
                         timestamp: tx.timestamp,
                         from: vec![],
@@ -2562,7 +2567,7 @@ impl Block {
                         data: vec![],
                         transaction_type: TransactionType::SPV,
                         txs_replacements: 1,
-                        signature: tx.signature,
+                        signature: placeholder_signature,
                         path: vec![],
                         hash_for_signature: tx.hash_for_signature,
                         total_in: 0,
@@ -2590,6 +2595,7 @@ impl Block {
                     .concat(),
                 );
                 pruned_txs[i].hash_for_signature = Some(combined_hash);
+                pruned_txs[i].signature[0..32].copy_from_slice(&combined_hash);
                 pruned_txs.remove(i + 1);
             } else {
                 i += 2;
